@@ -4,6 +4,8 @@ import (
 	"fmt"
 	"os"
 	"path/filepath"
+
+	"github.com/thought-machine/please/src/verifhook"
 )
 
 // CopyOrLinkFile either copies or hardlinks a file based on the link argument.
@@ -60,6 +62,7 @@ func RecursiveCopyOrLinkFile(from string, to string, mode os.FileMode, link, fal
 	if info.IsDir() {
 		return WalkMode(from, func(name string, fileMode Mode) error {
 			dest := filepath.Join(to, name[len(from):])
+			verifhook.Point("fs.copy.entry")
 			if fileMode.IsDir() {
 				return os.MkdirAll(dest, DirPermissions)
 			}
